@@ -94,6 +94,9 @@ type TB struct {
 	// bound by inlining is replaced by the argument term when exactly one candidate site exists
 	// (helpers extracted from a single caller read like the inlined code).
 	ParamCallers func(*ssa.Function) []ssa.CallInstruction
+	// ParamCallersMulti additionally resolves a parameter with 2..4 call sites to the common term of
+	// their arguments (or a phi of them).
+	ParamCallersMulti bool
 
 	stack    map[*ssa.Function]bool
 	visiting map[ssa.Value]bool
@@ -136,6 +139,24 @@ func (tb *TB) Of(v ssa.Value, env *Env) *Term {
 				delete(tb.visiting, x)
 				// keep receiver normalisation: a receiver passed on as receiver stays "recv:T"
 				return t
+			}
+			// several call sites: the parameter is one of their arguments
+			if args := ParamArgs(x, tb.ParamCallers); tb.ParamCallersMulti && len(args) >= 2 && len(args) <= 4 {
+				tb.visiting[x] = true
+				var ts []*Term
+				same := true
+				for _, a := range args {
+					t := tb.Of(a, nil)
+					if len(ts) > 0 && t.String() != ts[0].String() {
+						same = false
+					}
+					ts = append(ts, t)
+				}
+				delete(tb.visiting, x)
+				if same {
+					return ts[0]
+				}
+				return &Term{Op: "phi", Args: ts, Val: v}
 			}
 		}
 		if fn := x.Parent(); fn != nil && fn.Signature.Recv() != nil && len(fn.Params) > 0 && fn.Params[0] == x {
@@ -587,6 +608,40 @@ func ParamArg(p *ssa.Parameter, callers func(*ssa.Function) []ssa.CallInstructio
 		return nil
 	}
 	return cc.Args[ai]
+}
+
+// ParamArgs returns the argument bound to p at every candidate call site (nil when a site cannot be mapped).
+func ParamArgs(p *ssa.Parameter, callers func(*ssa.Function) []ssa.CallInstruction) []ssa.Value {
+	fn := p.Parent()
+	if fn == nil || callers == nil {
+		return nil
+	}
+	idx := -1
+	for i, q := range fn.Params {
+		if q == p {
+			idx = i
+		}
+	}
+	if idx < 0 {
+		return nil
+	}
+	var out []ssa.Value
+	for _, s := range callers(fn) {
+		cc := s.Common()
+		ai := idx
+		if cc.IsInvoke() {
+			if idx == 0 {
+				out = append(out, cc.Value)
+				continue
+			}
+			ai = idx - 1
+		}
+		if ai < 0 || ai >= len(cc.Args) {
+			return nil
+		}
+		out = append(out, cc.Args[ai])
+	}
+	return out
 }
 
 // RootP is Root that additionally resolves parameters through unique call sites.
